@@ -142,3 +142,35 @@ func TestVerifC19ReproBlindedPayloadSession(t *testing.T) {
 			c19OnionRoundTrip(res.rt))
 	}
 }
+
+// F9c: for an MPP shard the final hop's MPP record carries the payment
+// total, but the size estimate uses the shard amount.
+func TestVerifC19ReproMppTotalPayloadSession(t *testing.T) {
+	c19ReproGate(t)
+	m := c19ReproModel()
+	for meta := 1000; meta < 1300; meta++ {
+		q := c19ReproQuery(m)
+		q.Amt = 200
+		q.PayAddr, q.DestFeat, q.MetaLen = true, 1, meta
+		res := c19RunSession(q, c19SessionPlan{
+			Total: 5_000_000_000, MaxAmt: 200, MaxParts: 16, Active: 3,
+			PayCltv: 2016, FinalDltPay: 80,
+		})
+		if res.err != nil {
+			continue
+		}
+		path, err := res.rt.ToSphinxPath()
+		if err != nil {
+			t.Fatalf("ToSphinxPath: %v", err)
+		}
+		if sz := path.TotalPayloadSize(); sz > sphinx.MaxRoutingPayloadSize {
+			t.Errorf("metadata %d bytes, shard 200 of total 5e9: "+
+				"RequestRoute returned %v whose hop payloads need %d "+
+				"bytes; NewOnionPacket: %v", meta,
+				c19RouteString(m, res.rt), sz,
+				c19OnionRoundTrip(res.rt))
+			return
+		}
+	}
+	t.Logf("every returned route fits (defect absent)")
+}
